@@ -294,8 +294,24 @@ func (e *Eng) loopHeader(fr *Frame, h *ssa.BasicBlock, phis []*ssa.Phi, cur *Sta
 		phi *ssa.Phi
 		op  token.Token
 		n   ssa.Value
+		top bool // top-tested counting loop: the proposed invariant is `phi <= N || phi == 0`
 	}
 	var bounds []autoBound
+	// top-tested counting loops `for i := 0; i < N; i++`: the header itself decides on `phi < N` with N fixed in the
+	// loop and phi a unit counter from 0; `phi <= N || phi == 0` holds on entry and is kept by every iteration
+	if iff, ok := h.Instrs[len(h.Instrs)-1].(*ssa.If); ok {
+		if bo, ok := iff.Cond.(*ssa.BinOp); ok && bo.Op == token.LSS {
+			if p, ok := bo.X.(*ssa.Phi); ok && p.Block() == h && isUnitCounterFromZero(h, p) {
+				fixed := true
+				if ins, ok := bo.Y.(ssa.Instruction); ok && (body[ins.Block()] || ins.Block() == h) {
+					fixed = false
+				}
+				if fixed && len(h.Succs) == 2 && body[h.Succs[0]] {
+					bounds = append(bounds, autoBound{p, token.LSS, bo.Y, true})
+				}
+			}
+		}
+	}
 	for _, p := range phis {
 		if !isInteger(p.Type()) {
 			continue
@@ -323,12 +339,15 @@ func (e *Eng) loopHeader(fr *Frame, h *ssa.BasicBlock, phis []*ssa.Phi, cur *Sta
 				}
 			}
 			if !dup {
-				bounds = append(bounds, autoBound{p, bo.Op, bo.Y})
+				bounds = append(bounds, autoBound{p, bo.Op, bo.Y, false})
 			}
 		}
 	}
 	boundTerm := func(b autoBound, v string) string {
 		n := e.valOf(fr, cur, b.n)
+		if b.top {
+			return or(sx("<=", v, n.T), eq(v, "0"))
+		}
 		if b.op == token.LSS {
 			return sx("<", v, n.T)
 		}
@@ -494,6 +513,11 @@ func (e *Eng) loopEnv(fr *Frame, h *ssa.BasicBlock, phis []*ssa.Phi, override ma
 			}
 			if v != nil {
 				env.vars["rangeindex"] = &Val{T: sx("-", v.T, "1"), Typ: types.Typ[types.Int], KnownLen: -1}
+				// `for range n` keeps its counter itself in rangeint.iter
+				if _, has := env.vars["rangeint_iter"]; !has {
+					env.vars["rangeint_iter"] = v
+					env.vars["rangeint.iter"] = v
+				}
 			}
 		}
 	}
